@@ -13,13 +13,32 @@ def flt(scn, k, nmax, ty, npx=1, polls=3, envmax=12, timeout=1500, solver="cadic
                   % (k, nmax, TYPES[ty], "; sink abstraction stops after the first empty map once told to stop (flush race)" if scn == 2 else ""),
              bounds=dict(k=k, frames="1..%d" % nmax, type=TYPES[ty], pixels=npx, polls=polls, env_steps=envmax))
 
+def kern(k, ty, npx=1, timeout=900, solver="kissat"):
+    return H("filter_kernel_k%d_%s_px%d" % (k, TYPES[ty], npx), "harness/runtime/filter_unit.c",
+             repo=[rc.RT + "frame_iterator.c", rc.RT + "throttler.c", rc.COMP], env=rc.ENV_UNIT + ["env/chan_contract.c"],
+             defines=["SCN=3", "K=%d" % k, "TYPE=%d" % ty, "NPX=%d" % npx, "TAPE_BYTES=208", "WRITE_UNIT=104"], cflags=rc.cflags(VERIF),
+             unwind=max(k, npx) + 2, unwindset={"tape_at.0": 12, "min_consumed.0": 9}, solver=solver, timeout=timeout, mem_gb=16,
+             what="arithmetic kernel: real accumulate() x k on fully symbolic %s pixels into a zeroed f32 frame, real normalize(1/k): every pixel == (float)S*(1.0f/k) (IEEE single, bit-blasted)" % TYPES[ty],
+             bounds=dict(k=k, type=TYPES[ty], pixels=npx, values="full range of the type"))
+
+def sched(scn, k, nmax, **kw):
+    kw.setdefault("solver", "kissat")
+    kw.setdefault("envmax", 8)
+    kw.setdefault("polls", 2)
+    h = flt(scn, k, nmax, 0, **kw)
+    h.drop_flags = ["--pointer-overflow-check"]
+    h.defines.append("CONCRETE_PX=1")
+    h.name += "_cpx"
+    h.what += "; pixel values concrete and distinct per frame (powers of two), schedules symbolic"
+    return h
+
 def harnesses(tier, findings):
     if tier == "probe":
-        return [flt(1, 2, 3, 0, timeout=900), flt(2, 2, 2, 0, timeout=900), flt(1, 2, 5, 0, timeout=900)]
+        return [sched(1, 2, 3, timeout=900), sched(2, 2, 2, timeout=900), sched(1, 2, 2, timeout=900, solver="cadical")]
     if tier == "quick":
-        return [flt(1, 2, 4, 0), flt(2, 2, 3, 0)]
-    return [flt(1, 2, 5, 0, timeout=3000), flt(1, 3, 4, 1, timeout=3000), flt(1, 2, 4, 2, timeout=3000), flt(1, 2, 4, 3, timeout=3000),
-            flt(1, 2, 3, 1, npx=2, timeout=3000), flt(2, 2, 4, 0, timeout=3000), flt(2, 3, 4, 1, timeout=3000)]
+        return [sched(1, 2, 4), sched(2, 2, 3), kern(2, 0), kern(2, 1)]
+    return [sched(1, 2, 5, timeout=3000), sched(1, 3, 4, timeout=3000), sched(2, 2, 4, timeout=3000), sched(2, 3, 4, timeout=3000)] + \
+           [kern(k, ty, timeout=3000) for k in (2, 3) for ty in (0, 1, 2, 3, 5, 6, 7)] + [kern(2, 1, npx=2, timeout=3000)]
 
 META = dict(
     level="model_checking",
